@@ -628,6 +628,22 @@ func execFileRetain(codec string, bs, nrecs int, seed int64, closePct int) sx {
 		// the first block is the largest, so the reader's block buffers are reused (not reallocated) afterwards
 		want[0].S = c10Str[:50] + string(bytes.Repeat([]byte("x"), bs+1500))
 	}
+	if bs >= 100000 && nrecs >= 4 {
+		// values of 64 KiB and more (one record per block; the first block stays the largest)
+		big := func(n int, salt byte) []byte {
+			b := make([]byte, n)
+			for i := range b {
+				b[i] = byte(i*7) ^ salt ^ byte(i>>8)
+			}
+			return b
+		}
+		want[0].S = string(big(3*bs, 1))
+		want[1].S = string(big(1<<16, 2))
+		want[1].BB = [][]byte{big(1<<16+1, 3), big(70000, 4)}
+		want[2].S = string(big(1<<16-1, 5))
+		want[2].SS = []string{string(big(66000, 6))}
+		want[3].MB = map[string][]byte{string(big(1<<16, 7)): big(1<<16, 8)}
+	}
 	var file bytes.Buffer
 	enc, err := avro.NewEncoderFor[c10Rec](&file, avro.Compression(codec), bs)
 	if err != nil {
@@ -785,5 +801,9 @@ func genC10(c *ctx) {
 		nrecs := 1 + c.rng.Intn(c.scale(40, 120))
 		pct := []int{0, 30, 60, 100}[c.rng.Intn(4)]
 		c.emit(T("fileretain", A(codecs[i%3]), I(int64(bs)), I(int64(nrecs)), I(c.rng.Int63n(1<<40)), I(int64(pct))))
+	}
+	// strings, byte slices and map keys of 64 KiB and more, retained across blocks (seed 1 mod 4: the read is not stopped early)
+	for i := 0; i < c.scale(3, 12); i++ {
+		c.emit(T("fileretain", A(codecs[i%3]), I(100000), I(int64(4+c.rng.Intn(3))), I(c.rng.Int63n(1<<38)*4+1), I(0)))
 	}
 }
